@@ -171,6 +171,11 @@ func abs(x int64) int64 {
 	return x
 }
 
+// after reports whether a comes after b in sequence order (rollover aware).
+func (a sequenceNum) after(b sequenceNum) bool {
+	return a != b && sequenceNumSlice{b, a}.Less(0, 1)
+}
+
 // Type - event
 
 type event struct {
@@ -201,6 +206,7 @@ type eventList struct {
 	seqs    sequenceNumSlice
 	events  map[sequenceNum]*event
 	lastSeq sequenceNum
+	hasLast bool // hasLast is true once an event has been evicted (lastSeq is valid).
 	maxSize int
 	timeout time.Duration
 }
@@ -223,6 +229,24 @@ func (l *eventList) remove() {
 	}
 }
 
+// advance records seq as evicted and returns the number of sequence numbers
+// skipped since the previously evicted event. Late and duplicate sequences
+// (those not after the last evicted one) do not move the position and do not
+// count as loss.
+func (l *eventList) advance(seq sequenceNum) int {
+	if !l.hasLast {
+		l.hasLast = true
+		l.lastSeq = seq
+		return 0
+	}
+	if !seq.after(l.lastSeq) {
+		return 0
+	}
+	lost := int(seq - l.lastSeq - 1)
+	l.lastSeq = seq
+	return lost
+}
+
 // Clear removes all events from the list and returns the events and the number
 // of list events.
 func (l *eventList) Clear() ([]*event, int) {
@@ -242,10 +266,7 @@ func (l *eventList) Clear() ([]*event, int) {
 		seq = l.seqs[0]
 		event := l.events[seq]
 
-		if l.lastSeq > 0 {
-			lost += int(seq - l.lastSeq - 1)
-		}
-		l.lastSeq = seq
+		lost += l.advance(seq)
 		evicted = append(evicted, event)
 		l.remove()
 	}
@@ -301,10 +322,7 @@ func (l *eventList) CleanUp() ([]*event, int) {
 		event := l.events[seq]
 
 		if event.complete || size > l.maxSize || event.IsExpired() {
-			if l.lastSeq > 0 {
-				lost += int(seq - l.lastSeq - 1)
-			}
-			l.lastSeq = seq
+			lost += l.advance(seq)
 			evicted = append(evicted, event)
 			l.remove()
 			continue
